@@ -396,6 +396,9 @@ func (p *Path) callSSA(caller *Frame, callpos token.Pos, fn *ssa.Function, args 
 		panic(abort("unsupported: uninstantiated generic " + fn.String()))
 	}
 	p.eng.noteFunc(fn)
+	prevFr := p.curFrame
+	p.curFrame = fr
+	defer func() { p.curFrame = prevFr }()
 	fr.env = make(map[ssa.Value]Value, 16)
 	fr.block = fn.Blocks[0]
 	fr.locals = make([]Value, len(fn.Locals))
